@@ -49,6 +49,24 @@ def _bodies(node):
         yield "handler", h.body
 
 
+ANTONYMS = [("left", "right"), ("first", "second"), ("start", "stop"), ("span", "shift"), ("count", "skip"), ("min", "max"), ("duetime", "period"),
+            ("source", "other"), ("next", "completed"), ("error", "completed"), ("timespan", "timeshift"), ("opening", "closing"), ("key", "value"),
+            ("inner", "outer"), ("x", "y"), ("a", "b"), ("old", "new"), ("before", "after"), ("has", "is")]
+
+
+def _sibling(name, pool):
+    import re as _re
+    toks = _re.split(r"(_)", name)
+    for i, t in enumerate(toks):
+        for a, b in ANTONYMS:
+            for u_, v_ in ((a, b), (b, a)):
+                if t == u_ or (t.startswith(u_) and t[len(u_):].isdigit()):
+                    cand = "".join(toks[:i] + [v_ + t[len(u_):]] + toks[i + 1:])
+                    if cand in pool and cand != name:
+                        return cand
+    return None
+
+
 def candidates(tree):
     """Yield (op, index-in-walk, extra, lineno, description) for every mutation site inside a function body."""
     infunc = set()
@@ -58,10 +76,20 @@ def candidates(tree):
                 for n in ast.walk(st):
                     infunc.add(id(n))
             # parameter defaults / decorators are not in the body: excluded
+    pools = {}
+    for fn in ast.walk(tree):
+        if isinstance(fn, (ast.FunctionDef, ast.AsyncFunctionDef)):
+            names = {a.arg for a in fn.args.args + fn.args.kwonlyargs} | {x.id for x in ast.walk(fn) if isinstance(x, ast.Name) and isinstance(x.ctx, ast.Store)}
+            for x in ast.walk(fn):
+                pools.setdefault(id(x), set()).update(names)
     for i, n in enumerate(ast.walk(tree)):
         if id(n) not in infunc:
             continue
         ln = getattr(n, "lineno", 0)
+        if isinstance(n, ast.Name) and isinstance(n.ctx, ast.Load):
+            sib = _sibling(n.id, pools.get(id(n), set()))
+            if sib:
+                yield "VARSWAP", i, sib, ln, f"`{n.id}` -> `{sib}`"
         if isinstance(n, (ast.Expr, ast.Assign, ast.AugAssign)) and not _is_doc(n):
             yield "DEL", i, None, ln, f"delete `{ast.unparse(n)[:70]}`"
         if isinstance(n, ast.Return) and n.value is None:
@@ -134,6 +162,8 @@ def apply(src, op, idx, extra):
         n.op = ast.Or() if isinstance(n.op, ast.And) else ast.And()
     elif op == "KWDROP":
         del n.keywords[extra]
+    elif op == "VARSWAP":
+        n.id = extra
     elif op == "ARGSWAP":
         n.args[0], n.args[1] = n.args[1], n.args[0]
     elif op == "SWAP":
